@@ -52,7 +52,13 @@ def C08(tier):
 
 
 def _render_jobs(tier):
-    return []
+    jobs = []
+    quick = tier != 'thorough'
+    for rule, opts in RULE_CFGS + [('wigm', grid.RAT)]:
+        slow = rule in ('qpq', 'meek-prf') or opts.get('arithmetic') in ('guarded', 'rational')
+        for N in ((4,) if quick else (4, 5)):
+            jobs.append(grid.job(rule, opts, 3, 2, 2, N if not slow else 4, ['C18r'], 300 if quick else 1500, markers=True, fixed_total=True, weight=2))
+    return jobs
 
 
 def C18(tier):
@@ -61,6 +67,7 @@ def C18(tier):
     for rule, opts in [('wigm', grid.FX2), ('scotland', {}), ('mpls', {}), ('meek', {'arithmetic': 'fixed', 'precision': 3, 'omega': 2}), ('wigm-prf', {})]:
         r['jobs'].append(grid.job(rule, opts, 3, 2, 3, 6 if tier != 'thorough' else 8, ['C18'], 300 if tier != 'thorough' else 1500, names=['Smith', 'Smith', 'Jones']))
     r['jobs'] += _render_jobs(tier)
+    r['require_reach'] = r['require_reach'] + ['renderings-compared']
     return r
 
 
